@@ -11,6 +11,7 @@ EventTags(ev) ==
          [] ev.e = "decode_opts"    -> VDecodeOpts(ev)
          [] ev.e = "decode_suffix"  -> VDecodeSuffix(ev)
          [] ev.e = "avps_concat"    -> VAvpsConcat(ev)
+         [] ev.e = "ctl_records"    -> VCtlRecords(ev)
          [] ev.e = "encode"         -> VEncode(ev)
          [] ev.e = "encode_seq"     -> VEncodeSeq(ev)
          [] ev.e = "roundtrip"      -> VRoundtrip(ev)
